@@ -123,17 +123,29 @@ BigAt(j) ==
     IN  CItem("big_input", Cmd(IF q % 2 = 1 THEN "hash" ELSE "sign", "transaction", IF q % 2 = 1 THEN NoAcct ELSE PlainAcct(Mn1),
                                <<>>, "", "stdin", [doc |-> doc]))
 
+\* ---- F: accounts whose private key starts with a zero nibble / a zero byte (spec-directed search) -------
+KeyOfIndex(i) == Derive(SeedOf(Mn2, <<>>), ForIndex(BnFromNat(i))).k
+NZeroKey == 2 * 4
+ZeroKeyAt(j) ==
+  LET byte == j > 4
+      i    == IF byte THEN CHOOSE c \in 0..3000 : KeyOfIndex(c)[1] = 0
+              ELSE CHOOSE c \in 0..400 : KeyOfIndex(c)[1] < 16 /\ KeyOfIndex(c)[1] > 0
+      acct == [mnemonic |-> Opt("env", Mn2), password |-> NoOpt, index |-> Opt(IF j % 2 = 0 THEN "flag" ELSE "env", ToString(i)), path |-> NoOpt]
+  IN  CItem("zero_key", Form(<<2, 3, 1, 8>>[1 + ((j - 1) % 4)], acct, "none", <<76, j>>))
+
 O1 == NSample
 O2 == O1 + NLattice
 O3 == O2 + 3 * NSessions
 O4 == O3 + NBad
-Count == O4 + NBig
+O5 == O4 + NBig
+Count == O5 + NZeroKey
 ItemAt(g) ==
   IF g <= O1 THEN SampleAt(g)
   ELSE IF g <= O2 THEN LatticeAt(g - O1)
   ELSE IF g <= O3 THEN SessionAt(g - O2)
   ELSE IF g <= O4 THEN BadAt(g - O3)
-  ELSE BigAt(g - O4)
+  ELSE IF g <= O5 THEN BigAt(g - O4)
+  ELSE ZeroKeyAt(g - O5)
 VARIABLE n
 INSTANCE GenBase
 =============================================================================
